@@ -122,11 +122,16 @@ func c03Gen(t *rapid.T) pairCase {
 	if rapid.IntRange(0, 2).Draw(t, "polyA") == 0 {
 		ka = exact.KPoly
 	}
-	return genPair(t, ka, kb, 8, false)
+	return genPair(t, ka, kb, 8, false, true)
 }
 
 func c03Subs() []fw.Sub {
 	return []fw.Sub{fw.Prop[pairCase]{
+		Name:       "contains-enumerated",
+		Exhaustive: enumPairsSpace,
+		Enum:       enumPairs,
+		Check:      c03Check,
+	}, fw.Prop[pairCase]{
 		Name: "contains-random",
 		Checks: func(tier string) int {
 			if tier == "thorough" {
